@@ -34,7 +34,11 @@ def run_variant(v) -> tuple[str, bool, str]:
     tmp = Path(tempfile.mkdtemp(prefix="pvs-selftest-"))
     try:
         make_copy(tmp)
-        if rel is not None:
+        if rel == "PATCH":
+            r = subprocess.run(["git", "apply", "--unsafe-paths", f"--directory={tmp}", str(VERIF / old)], capture_output=True, text=True, cwd="/")
+            if r.returncode != 0:
+                return vid, False, f"pattern (patch {old}) does not apply to this tree: {r.stderr[:120]}"
+        elif rel is not None:
             p = tmp / rel
             s = p.read_text()
             pairs = old if isinstance(old, list) else [(old, new)]
